@@ -556,6 +556,39 @@ def gen_items(tier):
 PAIR_K = {"quick": -1, "thorough": 6}  # negative: without explicit None
 
 
+def unversioned_constants(name):
+    """Constants must also be enforced by the class object handed out WITHOUT a version (schemas.get(name), schemas[name])."""
+    from metador_core.plugins import schemas
+
+    out = []
+    ver, S = _SCHEMAS[name]
+    consts = dict(getattr(S, "__constants__", {}) or {})
+    if not consts:
+        return out
+    try:
+        base = I.build_input(_MIN[name], [], _E)
+        S(**base)
+    except Exception:
+        return out  # uninhabited (e.g. core.packerinfo): nothing to judge
+    for how, get in (("get(name)", lambda: schemas.get(name)), ("[name]", lambda: schemas[name])):
+        try:
+            Su = get()
+            alias = {(fld.alias or k): k for k, fld in S.__fields__.items()}
+            foreign = {k: "zz-foreign-constant" for k in consts}
+            o = Su.parse_obj(dict(I.build_input(_MIN[name], [], _E), **foreign))
+            d = o.json_dict()
+            bad = {k: d.get(k, "<absent>") for k, cv in consts.items() if d.get(k, "<absent>") != cv}
+            o2 = Su.parse_raw(bytes(o))
+            d2 = o2.json_dict()
+            bad2 = {k: d2.get(k, "<absent>") for k, cv in consts.items() if d2.get(k, "<absent>") != cv}
+        except Exception as ex:
+            out.append({"sig": {"part": "const-ignored", "form": "unversioned", "schema": name, "cause": "raised"}, "input": {"kind": "unversioned", "schema": name, "seed": _E.n.seed}, "what": f"schemas.{how}: input stating other constant values raised {_exc(ex)}"})
+            continue
+        if bad or bad2:
+            out.append({"sig": {"part": "const-ignored", "form": "unversioned", "schema": name, "cause": "kept-foreign"}, "input": {"kind": "unversioned", "schema": name, "seed": _E.n.seed}, "what": f"class from schemas.{how}: input stating other constant values dumps {bad or bad2} instead of the declared constants {consts}"})
+    return out
+
+
 def run_installed_family(pool, tier, names, seed, fname="run_installed"):
     """bound 0 and 1 with the full corpora first; bound 2 afterwards, not re-combining values that fail on their own"""
     probes = pool.map("probe_installed", names, chunk=1, item_deadline=300)
